@@ -231,11 +231,18 @@ func runC02(seed int64, n int, dir string, tier string) *Report {
 			}
 			if f == formats.CDX15JSON {
 				var w1, r1 []string
+				// a typed entry by its type; a custom one by "no type" plus name and description
+				lc := func(dt *sbom.DocumentType) string {
+					if dt.Type == nil {
+						return fmt.Sprintf("custom(%q,%q)", dt.GetName(), dt.GetDescription())
+					}
+					return fmt.Sprint(dt.GetType())
+				}
 				for _, dt := range d.Metadata.DocumentTypes {
-					w1 = append(w1, fmt.Sprint(dt.GetType()))
+					w1 = append(w1, lc(dt))
 				}
 				for _, dt := range d2.Metadata.DocumentTypes {
-					r1 = append(r1, fmt.Sprint(dt.GetType()))
+					r1 = append(r1, lc(dt))
 				}
 				if strings.Join(w1, ",") != strings.Join(r1, ",") {
 					rep.Fail(Failure{What: "CycloneDX 1.5 round trip changed the lifecycle types", Detail: fmt.Sprintf("wrote %v read %v", w1, r1), Input: in})
@@ -251,6 +258,18 @@ func runC02(seed int64, n int, dir string, tier string) *Report {
 			if err != nil {
 				rep.Fail(Failure{What: "second CycloneDX pass: reader failed", Detail: err.Error(), Input: in})
 				continue
+			}
+			if f == formats.CDX15JSON {
+				var l2, l3 []string
+				for _, dt := range d2.Metadata.DocumentTypes {
+					l2 = append(l2, fmt.Sprintf("%v|%q|%q|%v", dt.Type == nil, dt.GetName(), dt.GetDescription(), dt.GetType()))
+				}
+				for _, dt := range d3.Metadata.DocumentTypes {
+					l3 = append(l3, fmt.Sprintf("%v|%q|%q|%v", dt.Type == nil, dt.GetName(), dt.GetDescription(), dt.GetType()))
+				}
+				if strings.Join(l2, ",") != strings.Join(l3, ",") || d3.Metadata.Id != d2.Metadata.Id || d3.Metadata.Version != d2.Metadata.Version {
+					rep.Fail(Failure{What: "a second CycloneDX write-then-read pass changed the lifecycle entries, the serial number or the version", Detail: fmt.Sprintf("after one pass %v, after two %v", l2, l3), Input: in})
+				}
 			}
 			if !sameNodeListCanon(d2.NodeList, d3.NodeList) {
 				f := Failure{What: "a second CycloneDX write-then-read pass changed the document further", Input: in}
